@@ -10,7 +10,8 @@ if [ -d harness/tools/clockoverlay ]; then (cd harness && go build -o ../build/c
 ./build/astfacts -repo /repo -out coq/Gen/Facts.v
 ./mkcoq.sh
 (cd coq && timeout 7200 make -j16 -k) || echo 'setup: some Coq targets failed (each check reports its own)'
-if [ -x build/clockoverlay ]; then ./build/clockoverlay -repo /repo -out build/overlay; fi
-OV=""; [ -f build/overlay.json ] && OV="-overlay build/overlay.json"
-for d in harness/cmd/*/; do n=$(basename $d); (cd harness && CGO_ENABLED=0 go build -tags verif $(echo $OV | sed "s#build/#../build/#") -o ../build/$n ./cmd/$n); done
+ROOT="$(pwd)"
+if [ -x build/clockoverlay ]; then ./build/clockoverlay -repo /repo -out "$ROOT/build/overlay"; fi
+OV=""; [ -f build/overlay.json ] && OV="-overlay $ROOT/build/overlay.json"
+for d in harness/cmd/*/; do n=$(basename $d); (cd harness && CGO_ENABLED=0 go build -tags verif $OV -o ../build/$n ./cmd/$n) || echo "setup: driver $n did not build (its checks will report it)"; done
 echo "setup ok"
